@@ -30,10 +30,25 @@ func (s Sort) IsArr() bool { return strings.HasPrefix(string(s), "(Array") }
 // ArrElem returns the element sort of an array sort whose index sort is Int.
 func (s Sort) ArrElem() Sort {
 	str := string(s)
-	if !strings.HasPrefix(str, "(Array Int ") {
+	if !strings.HasPrefix(str, "(Array ") {
 		panic("ArrElem: " + str)
 	}
-	return Sort(str[len("(Array Int ") : len(str)-1])
+	rest := str[len("(Array ") : len(str)-1]
+	// skip the index sort (an atom or a parenthesised sort)
+	depth := 0
+	for i, c := range rest {
+		switch c {
+		case '(':
+			depth++
+		case ')':
+			depth--
+		case ' ':
+			if depth == 0 {
+				return Sort(rest[i+1:])
+			}
+		}
+	}
+	panic("ArrElem: " + str)
 }
 
 // Term is an SMT-LIB term with its sort.
